@@ -415,8 +415,78 @@ def check_stream_windows_own_samples(p, report):
         if not ps:
             continue
         visit(ci, f, {ps[0]}, 0)
+    # budget managers: a history kept on self is never (a slice of) an array the caller passed to update
+    n_bm = 0
+    for ci in sorted(p.classes.values(), key=lambda c: c.name):
+        if "/tests/" in ci.file or "/budgetmanager/" not in ci.file:
+            continue
+        f = ci.methods.get("update")
+        if f is None:
+            continue
+        params = set(a for a in f.params() if a != "self")
+        # aliases of the parameters through conversions that return their argument when no conversion is needed
+        alias = set(params)
+        for _ in range(3):
+            for a in ast.walk(f.node):
+                if isinstance(a, ast.Assign) and len(a.targets) == 1 and isinstance(a.targets[0], ast.Name):
+                    v = _strip_alias(a.value)
+                    if isinstance(v, ast.Name) and v.id in alias and not _copy_expr(a.value, f.node, params):
+                        alias.add(a.targets[0].id)
+        fresh_rebound = set()
+        for a in ast.walk(f.node):
+            if isinstance(a, ast.Assign) and len(a.targets) == 1 and isinstance(a.targets[0], ast.Name) \
+                    and a.targets[0].id in alias and a.targets[0].id not in params:
+                pass
+        bad = None
+        stores = 0
+        for a in ast.walk(f.node):
+            if isinstance(a, ast.Assign) and any(isinstance(t, ast.Attribute) and isinstance(t.value, ast.Name) and t.value.id == "self"
+                                                 for t in a.targets):
+                stores += 1
+                v = _strip_alias(a.value)
+                if isinstance(v, ast.Name) and v.id in alias and not _copy_expr(a.value, f.node, params):
+                    # not an alias any more if a re-binding to a fresh value dominates the store
+                    from ..astutil import FuncTree as _FT, dominates as _dom
+                    tr = _FT(f.node)
+                    fresh_dom = False
+                    for d in ast.walk(f.node):
+                        if isinstance(d, ast.Assign) and d is not a and d.lineno < a.lineno \
+                                and any(isinstance(t, ast.Name) and t.id == v.id for t in d.targets):
+                            dv = _strip_alias(d.value)
+                            is_alias_def = isinstance(dv, ast.Name) and dv.id in alias and not _copy_expr(d.value, f.node, params)
+                            if not is_alias_def and _dom(tr, d, a):
+                                fresh_dom = True
+                    if not fresh_dom:
+                        bad = bad or a
+        if stores:
+            n_bm += 1
+            report.add("R13.7", f.qual, "what update keeps on self is not (a slice of) the caller's arrays", f"{f.file}:{(bad or f.node).lineno}",
+                       bad is None, detail=f"{stores} attribute store(s)" if bad is None else
+                       f"`{norm_stmt(bad, 60)}` keeps a view of an array the caller passed in (np.asarray / ravel / a slice return their "
+                       f"argument's memory): a caller that re-uses that buffer rewrites the manager's history")
     report.analysed["window_stores_of_candidate_rows"] = n_sites
+    report.analysed["budget_manager_updates_checked"] = n_bm
 
 
 def names_in_(e):
     return {x.id for x in ast.walk(e) if isinstance(x, ast.Name)}
+
+
+def _strip_alias(v):
+    """strip conversions / reshapes / basic slices that may return (a view of) their argument"""
+    while True:
+        if isinstance(v, ast.Call) and (_c01.callname(v) or "").split(".")[-1] in (
+                "asarray", "asanyarray", "check_array", "column_or_1d", "ravel", "reshape", "atleast_1d", "squeeze", "view"):
+            if any(k.arg == "copy" and isinstance(k.value, ast.Constant) and k.value.value is True for k in v.keywords):
+                return v
+            if v.args and (_c01.callname(v) or "").split(".")[-1] in ("asarray", "asanyarray", "check_array", "column_or_1d", "atleast_1d"):
+                v = v.args[0]
+            elif isinstance(v.func, ast.Attribute):
+                v = v.func.value
+            else:
+                return v
+            continue
+        if isinstance(v, ast.Subscript) and isinstance(v.slice, ast.Slice):
+            v = v.value
+            continue
+        return v
